@@ -289,6 +289,20 @@ func c20Run(env *storeEnv, sc c20Scenario, work string) (int, int, error) {
 	if len(calls) == 0 && !refused {
 		return 0, 0, fmt.Errorf("HARNESS-SELFTEST no file-system calls of the store were found in the trace")
 	}
+	if !refused {
+		// the torn-write states are built from the store's write calls: when the bytes that the complete store left on
+		// disk did not go through write calls (a memory-mapped file, copy_file_range, ...) those states cannot be
+		// enumerated and the check cannot decide
+		written := 0
+		for _, c := range calls {
+			if c.Name == "write" || c.Name == "pwrite64" {
+				written += c.NBytes
+			}
+		}
+		if payload := writtenBytes(pre, traced); len(payload) > 0 && written < len(payload) {
+			return 0, 0, fmt.Errorf("HARNESS-SELFTEST the complete store left %d new bytes on disk but issued write calls for %d only: torn-write states cannot be enumerated", len(payload), written)
+		}
+	}
 	newKey := treeKey(traced)
 	states := []crashState{{Dir: traced, What: "no crash (complete store)"}}
 	// (2) crash before every call
